@@ -599,8 +599,9 @@ class OpRunner:
         names = ['A_r%d' % i for i in range(len(srefs))]
         subs0 = {nm: set(subtree(preS, nm)) for nm in names}
         allowed = []
+        overlap_ok = bool(self.cfg.get('multi_overlap'))   # C09 only: Inv must survive overlapping / repeated requests too
         for combo in itertools.product(range(len(srefs)), repeat=k):
-            if all(not (subs0[names[i]] & subs0[names[j]]) for i, j in itertools.combinations(combo, 2)):
+            if overlap_ok or all(not (subs0[names[i]] & subs0[names[j]]) for i, j in itertools.combinations(combo, 2)):
                 allowed.append(z3.And([args[x] == srefs[i] for x, i in enumerate(combo)]))
         precond = z3.Or(allowed) if allowed else z3.BoolVal(False)
         arr = Ptr(Cell(ArrayV([ref_val(a) for a in args])))
@@ -612,15 +613,18 @@ class OpRunner:
         # assumed precondition (not stated by the docs, required for "corresponding copy" to be well defined):
         # the requested subtrees are pairwise disjoint
         subs = [set(subtree(preS, x)) for x in ks]
-        for i, j in itertools.combinations(range(k), 2):
-            if subs[i] & subs[j]:
-                return 'outside'
+        overlapping = any(subs[i] & subs[j] for i, j in itertools.combinations(range(k), 2))
+        if overlapping and not overlap_ok:
+            return 'outside'
         what = 'clone_multiple_into_external(%s)' % ks
         postS, postD = self.post_common([('src', src), ('dest', dst)], what)
         out = deref(res)
         if len(out.items) != k:
             self.fail('C11.shape', what + ': returned %d referents for %d requests' % (len(out.items), k))
-        self.check_clone(what, preS, postD, list(preD.nodes), ks, [A.canon(x) for x in out.items], False, list(preD.uids))
+        if not overlapping:
+            # "the corresponding copy" is only well defined for disjoint requests; for overlapping ones only Inv, the
+            # untouched source and the untouched rest of dest are demanded
+            self.check_clone(what, preS, postD, list(preD.nodes), ks, [A.canon(x) for x in out.items], False, list(preD.uids))
         self.compare(preS, postS, what + ' src')
         self.frame_check(preS, postS, set(), what + ' src')
         self.frame_check(preD, postD, set(), what + ' dest')
